@@ -557,7 +557,8 @@ def kern_to_ekern(
     if len(importer.errors):
         raise Exception(f'ERROR: {input_file} has errors {importer.get_error_messages()}')
 
-    export_options = ExportOptions(spine_types=['**kern'], token_categories=BEKERN_CATEGORIES,
+    export_options = ExportOptions(spine_types=['**kern'],
+                                   token_categories=TokenCategory.valid(include=BEKERN_CATEGORIES),
                                    kern_type=Encoding.eKern)
     exporter = Exporter()
     exported_ekern = exporter.export_string(document, export_options)
